@@ -259,6 +259,11 @@ func genC12(seed uint64, thorough bool) c12case {
 			if len(cand) > 0 {
 				i := cand[r.Intn(len(cand))]
 				cs.events[i].pre = r.Pick([]string{"stage:1/2>", cs.host + "#", "copy:50/100$", "(busy)#"})
+				// … or the text the LAST event waits for (its question), shown early: event i's own
+				// read must not stop at it
+				if last := cs.events[n-1]; last.ask != "" && last.resp != cs.events[i].resp && last.resp >= 2 && r.Chance(1, 2) {
+					cs.events[i].pre = last.ask
+				}
 				cs.statusLine = true
 			}
 		}
@@ -903,6 +908,25 @@ func c12staleOK(cs c12case) bool {
 	return !c12subseq(first, stale+first[:len(first)-1])
 }
 
+// c12completeSlice builds the slice handed to WithCompletePatterns. How a caller builds it is its
+// own business: exactly sized, or (two cases in three) with spare capacity as append or
+// make(.., n, n+4) leave it — also an empty one with capacity. The library must not let its
+// per-event pattern lists share that spare room.
+func c12completeSlice(cs c12case) ([]*regexp.Regexp, bool) {
+	spare := cs.seed%3 != 0
+	if len(cs.complete) == 0 && !spare {
+		return nil, false
+	}
+	cp := make([]*regexp.Regexp, 0, len(cs.complete))
+	if spare {
+		cp = make([]*regexp.Regexp, 0, len(cs.complete)+4)
+	}
+	for _, i := range cs.complete {
+		cp = append(cp, regexp.MustCompile(facts.C12Patterns[i].Src))
+	}
+	return cp, true
+}
+
 // c12badOption is an operation option that fails: for every options object ("all") or only when it
 // is applied to the channel's operation options ("channel").
 func c12badOption(kind string) util.Option {
@@ -1027,11 +1051,7 @@ func runC12case(cs c12case) (o c12obs) {
 				}
 				evs = append(evs, ev)
 			}
-			if len(cs.complete) > 0 {
-				var cp []*regexp.Regexp
-				for _, i := range cs.complete {
-					cp = append(cp, regexp.MustCompile(facts.C12Patterns[i].Src))
-				}
+			if cp, pass := c12completeSlice(cs); pass {
 				opOpts = append(opOpts, opoptions.WithCompletePatterns(cp))
 			}
 			if cs.badOpt != "" {
@@ -1175,11 +1195,7 @@ func runC12case(cs c12case) (o c12obs) {
 			if cs.exact {
 				opOpts = append(opOpts, opoptions.WithExactMatchInput())
 			}
-			if len(cs.complete) > 0 {
-				var cp []*regexp.Regexp
-				for _, i := range cs.complete {
-					cp = append(cp, regexp.MustCompile(facts.C12Patterns[i].Src))
-				}
+			if cp, pass := c12completeSlice(cs); pass {
 				opOpts = append(opOpts, opoptions.WithCompletePatterns(cp))
 			}
 			if cs.badOpt != "" {
@@ -1620,6 +1636,9 @@ func c12check(c *ctx, cases []c12case) {
 		res.Count(fmt.Sprintf("dom:%v", allDom))
 		if cs.echoTail > 0 {
 			res.Count(fmt.Sprintf("echo-tail-held setup=%d dom:%v clean:%v", cs.setup, allDom, cs.clean))
+		}
+		if cs.kind == "inter" || cs.kind == "netinter" {
+			res.Count(fmt.Sprintf("complete-patterns slice spare-capacity:%v", cs.seed%3 != 0))
 		}
 		if cs.winAdv {
 			db := "small"
